@@ -619,7 +619,9 @@ func (hp *HTTPProxy) isLocalhost(host string) bool {
 	if slices.Contains(hp.localhost, host) {
 		return true
 	}
-	if ip := net.ParseIP(host); ip != nil && ip.IsLoopback() {
+	// The unspecified addresses are matched as IPs and not only as the
+	// "0.0.0.0" and "::" strings, they can be spelt "::0", "0:0:0:0:0:0:0:0" etc.
+	if ip := net.ParseIP(host); ip != nil && (ip.IsLoopback() || ip.IsUnspecified()) {
 		return true
 	}
 
